@@ -8,3 +8,5 @@ pub(crate) mod raft_log;
 pub mod stat;
 pub(crate) mod state_machine;
 pub(crate) mod wal;
+#[cfg(feature = "verif-hooks")]
+mod verif_hooks;
